@@ -103,7 +103,8 @@ def type_bits(ty):
 class Interp:
     def __init__(self, facts, opaque=(), sym_facts=None, max_depth=14, skip_asserts=('misaligned', 'null_deref'),
                  models=None, step_limit=200000, revisit_limit=4, trust_asserts=(), on_call=None, dyn_filter=None,
-                 loop_mode='abort', path_budget=20000, opaque_havoc=None, precise=False, extra_iterations=0):
+                 loop_mode='abort', path_budget=20000, opaque_havoc=None, precise=False, extra_iterations=0,
+                 always_summarise=False):
         self.facts = facts
         # precise: undecided asserts / infeasible paths are settled with the exact bit-level path condition (gbsa.bvproof)
         # before falling back to forking: removes false paths the interval x known-bits domain cannot exclude
@@ -127,6 +128,8 @@ class Interp:
         # havoc mode: number of further passes through a loop head after the summarised one before the path is cut
         # (1 = two consecutive iterations are executed from the summarised state)
         self.extra_iterations = extra_iterations
+        # havoc mode: summarise every loop at its first visit, also those whose guard is decided at that moment
+        self.always_summarise = always_summarise
         self.path_budget = path_budget
         self.paths_done = 0
         self._loops = {}
@@ -726,8 +729,10 @@ class Interp:
                     return st.fresh(type_bits(elem[2]) if len(elem) > 2 else 8, 'elem')
                 sub = self.project(st, old, elem)
                 if sub is None or is_int(sub):
-                    # element contents of buffers are not tracked across a havoc
-                    return st.fresh(type_bits(elem[2]) if len(elem) > 2 else 8, 'elem')
+                    # element contents of buffers are not tracked across a havoc: the element is an unknown of the
+                    # summarised state, named by the buffer and the index so that two reads of one cell agree
+                    ty_ = elem[2] if len(elem) > 2 else 'u8'
+                    return S(type_bits(ty_), '%s[%s]' % (name, fmt(elem[1])), ('elem', name, elem[1]))
                 return ('hav', sub, mid, name + '[]')
             return None
         if vk == 'snap':
@@ -1232,7 +1237,7 @@ class Interp:
                     st.events.append(('iteration', fr.fname, bb, fr.passes[bb],
                                       tuple(sorted(((k[2], v) for k, v in st.mem.items()
                                                     if k[0] == 'L' and k[1] == fr.uid), key=lambda kv: kv[0]))))
-                elif self._loop_needs_havoc(st, fr, bb):
+                elif self.always_summarise or self._loop_needs_havoc(st, fr, bb):
                     fr.havoced.add(bb)
                     self.havoc_loop(st, fr, bb)
             block = fn['blocks'][bb]
